@@ -139,6 +139,27 @@ def c12_ops(rng, tier):
             b = rand_time(rng)
         op = rng.choice(["time.sub", "time.sub", "time.before", "time.after"])
         L.append("%s %s %s" % (op, T(a), T(b)))
+    # ---- order of ADJACENT instants across every unit boundary (second -> minute -> hour -> day -> month -> year), both ways
+    for _ in range(800 if quick else 20000):
+        y, m, d, h, mi, s = rand_time(rng)
+        last = month_last(y, m)
+        pairs = [((y, m, d, h, mi, 58), (y, m, d, h, mi, 59))]
+        if mi < 59:
+            pairs.append(((y, m, d, h, mi, 59), (y, m, d, h, mi + 1, 0)))
+        if h < 23:
+            pairs.append(((y, m, d, h, 59, 59), (y, m, d, h + 1, 0, 0)))
+        if d < last and not (y == 1582 and m == 10 and d == 4):
+            pairs.append(((y, m, d, 23, 59, 59), (y, m, d + 1, 0, 0, 0)))
+        if m < 12:
+            pairs.append(((y, m, last, 23, 59, 59), (y, m + 1, 1, 0, 0, 0)))
+        if y < 9999:
+            pairs.append(((y, 12, 31, 23, 59, 59), (y + 1, 1, 1, 0, 0, 0)))
+        a, b = rng.choice(pairs)
+        for op in ("time.before", "time.after", "time.sub"):
+            L.append("%s %s %s" % (op, T(a), T(b)))
+            L.append("%s %s %s" % (op, T(b), T(a)))
+    L.append("time.before 1582 10 4 23 59 59 1582 10 15 0 0 0")
+    L.append("time.after 1582 10 15 0 0 0 1582 10 4 23 59 59")
     # ---- new (acceptance)
     for _ in range(1500 if quick else 40000):
         y, m, d, h, mi, s = rand_time(rng)
